@@ -49,6 +49,11 @@ def _is_simple(e):
         return _is_simple(e.operand)
     if isinstance(e, ast.BinOp) and isinstance(e.op, (ast.Add, ast.Sub)):
         return _is_simple(e.left) and _is_simple(e.right)      # re-evaluating integer arithmetic over names is harmless
+    if isinstance(e, ast.Call) and isinstance(e.func, ast.Attribute) and e.func.attr in ("group", "start", "end", "span", "lower", "upper") and not e.keywords and \
+            _is_simple(e.func.value) and all(isinstance(a, ast.Constant) for a in e.args):
+        return True                                            # pure accessors of match objects / bytes
+    if isinstance(e, ast.Call) and isinstance(e.func, ast.Name) and e.func.id in ("chr", "ord", "len") and len(e.args) == 1 and not e.keywords and _is_simple(e.args[0]):
+        return True
     return False
 
 
@@ -211,8 +216,26 @@ class Normaliser:
                 return None
         return e
 
-    def stmt_helper(self, g):
+    def try_helper(self, g):
+        """`try: return E` / `except X: return D` (D a literal): (E, handlers as (type, D)) or None"""
         b = _body(g.node)
+        if len(b) != 1 or not isinstance(b[0], ast.Try) or b[0].orelse or b[0].finalbody:
+            return None
+        t = b[0]
+        if len(t.body) != 1 or not isinstance(t.body[0], ast.Return) or t.body[0].value is None:
+            return None
+        hs = []
+        for h in t.handlers:
+            if h.name or len(h.body) != 1 or not isinstance(h.body[0], ast.Return) or not isinstance(h.body[0].value, ast.Constant):
+                return None
+            hs.append((h.type, h.body[0].value))
+        return t.body[0].value, hs
+
+    def stmt_helper(self, g, procedure=False):
+        """straight-line helper ending in its only `return <value>`; with procedure=True also a helper without any return"""
+        b = _body(g.node)
+        if procedure and b and not any(isinstance(n, ast.Return) for st in b for n in ast.walk(st)):
+            return b + [ast.Return(value=ast.Constant(value=None))]
         if len(b) < 2 or not isinstance(b[-1], ast.Return) or b[-1].value is None:
             return None
         if any(isinstance(n, ast.Return) for st in b[:-1] for n in ast.walk(st)):
@@ -289,12 +312,26 @@ class Normaliser:
     def inline_stmt_calls(self, module, fi):
         changed = False
 
-        def expand(call, make_tail, at):
+        def expand(call, make_tail, at, procedure=False):
             h = self.helper_of(module, fi, call)
             if h is None:
                 return None
             g, is_method = h
-            b = self.stmt_helper(g)
+            th = self.try_helper(g)
+            if th is not None and not procedure:
+                env_t = _bind(g.node, call, is_method)
+                probe = make_tail(ast.Constant(value=None))
+                if env_t is not None and len(probe) == 1 and isinstance(probe[0], ast.Assign) and all(_is_simple(a) for a in env_t.values()):
+                    e_, hs_ = th
+                    tgt = probe[0].targets
+                    new_try = ast.Try(body=[ast.Assign(targets=_clone(tgt), value=_Subst(env_t).visit(_clone(e_)))],
+                                      handlers=[ast.ExceptHandler(type=_clone(ty), name=None, body=[ast.Assign(targets=_clone(tgt), value=_clone(d))]) for ty, d in hs_],
+                                      orelse=[], finalbody=[])
+                    _relocate(new_try, at)
+                    ast.fix_missing_locations(new_try)
+                    self.log.append(f"{fi.fq}: {g.qualname}(...) -> try/except with the sentinel assigned in the handler")
+                    return [new_try]
+            b = self.stmt_helper(g, procedure)
             if b is None:
                 return None
             env = _bind(g.node, call, is_method)
@@ -338,7 +375,7 @@ class Normaliser:
                 elif isinstance(s, ast.Return) and isinstance(s.value, ast.Call):
                     new = expand(s.value, lambda e: [ast.Return(value=e)], s)
                 elif isinstance(s, ast.Expr) and isinstance(s.value, ast.Call):
-                    new = expand(s.value, lambda e: [ast.Expr(value=e)], s)
+                    new = expand(s.value, lambda e: [] if isinstance(e, ast.Constant) else [ast.Expr(value=e)], s, procedure=True)
                 elif isinstance(s, ast.For) and isinstance(s.iter, ast.Call):
                     self.k += 1
                     tmp = f"items__{self.k}"
@@ -448,6 +485,240 @@ class Normaliser:
                         return True
         return False
 
+    # ------------------------------------------------------------------ T13: block-local reads `a = x.f` / `a, b = x.f, x.g` (a assigned once): a is x.f until x is touched
+    def field_temps(self, fi):
+        fn = fi.node
+        if isinstance(fn, ast.Lambda):
+            return False
+        stores = {}
+        for n in ast.walk(fn):
+            if isinstance(n, ast.Name) and isinstance(n.ctx, (ast.Store, ast.Del)):
+                stores[n.id] = stores.get(n.id, 0) + 1
+
+        def is_read(e):
+            return isinstance(e, ast.Attribute) and isinstance(e.value, ast.Name)
+
+        def touches(st, x, attrs):
+            for n in ast.walk(st):
+                if isinstance(n, ast.Name) and n.id == x and isinstance(n.ctx, ast.Store):
+                    return True
+                if isinstance(n, ast.Attribute) and isinstance(n.ctx, ast.Store) and isinstance(n.value, ast.Name) and n.value.id == x:
+                    return True
+                if isinstance(n, ast.Call):
+                    if isinstance(n.func, ast.Attribute) and isinstance(n.func.value, ast.Name) and n.func.value.id == x:
+                        return True
+                    if any(isinstance(a, ast.Name) and a.id == x for a in list(n.args) + [k.value for k in n.keywords]):
+                        return True
+            return False
+        for owner in ast.walk(fn):
+            for fld in ("body", "orelse"):
+                blk = getattr(owner, fld, None)
+                if not isinstance(blk, list) or owner is fn and False:
+                    continue
+                for i, s in enumerate(blk):
+                    if not (isinstance(s, ast.Assign) and len(s.targets) == 1):
+                        continue
+                    t, v = s.targets[0], s.value
+                    pairs = None
+                    if isinstance(t, ast.Name) and is_read(v):
+                        pairs = [(t.id, v)]
+                    elif isinstance(t, ast.Tuple) and isinstance(v, ast.Tuple) and len(t.elts) == len(v.elts) and all(isinstance(a, ast.Name) for a in t.elts) and all(is_read(b) for b in v.elts):
+                        pairs = [(a.id, b) for a, b in zip(t.elts, v.elts)]
+                    if not pairs or any(stores.get(a, 0) != 1 for a, _b in pairs):
+                        continue
+                    xs = {b.value.id for _a, b in pairs}
+                    if len(xs) != 1:
+                        continue
+                    x = next(iter(xs))
+                    names = {a for a, _b in pairs}
+                    # every use must be in this block, after the assignment, before x is touched
+                    later, ok = [], True
+                    for st in blk[i + 1:]:
+                        uses = any(isinstance(n, ast.Name) and n.id in names and isinstance(n.ctx, ast.Load) for n in ast.walk(st))
+                        if touches(st, x, None):
+                            # uses inside or after a statement that touches x would read a stale value
+                            if uses or any(isinstance(n, ast.Name) and n.id in names for st2 in blk[blk.index(st) + 1:] for n in ast.walk(st2)):
+                                ok = False
+                            break
+                        if uses:
+                            later.append(st)
+                    total_uses = sum(1 for n in ast.walk(fn) if isinstance(n, ast.Name) and n.id in names and isinstance(n.ctx, ast.Load))
+                    found = sum(1 for st in later for n in ast.walk(st) if isinstance(n, ast.Name) and n.id in names and isinstance(n.ctx, ast.Load))
+                    if not ok or not later or total_uses != found:
+                        continue
+                    env = {a: b for a, b in pairs}
+                    for st in later:
+                        _Subst(env).visit(st)
+                    del blk[i]
+                    self.log.append(f"{fi.fq}: field reads {sorted(names)} of {x} propagated")
+                    return True
+        return False
+
+    # ------------------------------------------------------------------ T14: private module constants (one literal assignment) are read as their value
+    def private_constants(self, module, fi):
+        fn = fi.node
+        if isinstance(fn, ast.Lambda):
+            return False
+        consts = {}
+        for name, val in module.assigns.items():
+            if name.startswith("_") and name not in module.multi_assigned and isinstance(val, ast.Constant) and isinstance(val.value, (str, bytes, int)) and not isinstance(val.value, bool):
+                consts[name] = val
+        if not consts:
+            return False
+        local = {n.id for n in ast.walk(fn) if isinstance(n, ast.Name) and isinstance(n.ctx, ast.Store)} | {a.arg for a in fn.args.posonlyargs + fn.args.args + fn.args.kwonlyargs}
+        env = {k: v for k, v in consts.items() if k not in local}
+        used = {n.id for n in ast.walk(fn) if isinstance(n, ast.Name) and isinstance(n.ctx, ast.Load) and n.id in env}
+        if not used:
+            return False
+        for st in fn.body:
+            _Subst({k: env[k] for k in used}).visit(st)
+        self.log.append(f"{fi.fq}: private constants {sorted(used)} read as their values")
+        return True
+
+    # ------------------------------------------------------------------ T15: `x = e.split(sep)` + `x.pop()` / `del x[-1]`  ->  `x = e.split(sep)[:-1]` (split never returns an empty list)
+    def split_drop_last(self, fi):
+        for owner in ast.walk(fi.node):
+            for fld in ("body", "orelse"):
+                blk = getattr(owner, fld, None)
+                if not isinstance(blk, list):
+                    continue
+                for i in range(len(blk) - 1):
+                    a, b = blk[i], blk[i + 1]
+                    if isinstance(a, ast.Assign) and len(a.targets) == 1 and isinstance(a.targets[0], ast.Name) and isinstance(a.value, ast.Call) and \
+                            isinstance(a.value.func, ast.Attribute) and a.value.func.attr == "split" and len(a.value.args) == 1 and not a.value.keywords:
+                        x = a.targets[0].id
+                        drop = (isinstance(b, ast.Expr) and isinstance(b.value, ast.Call) and isinstance(b.value.func, ast.Attribute) and b.value.func.attr == "pop" and
+                                not b.value.args and isinstance(b.value.func.value, ast.Name) and b.value.func.value.id == x) or \
+                               (isinstance(b, ast.Delete) and len(b.targets) == 1 and isinstance(b.targets[0], ast.Subscript) and isinstance(b.targets[0].value, ast.Name) and
+                                b.targets[0].value.id == x and ast.unparse(b.targets[0].slice) == "-1")
+                        if drop:
+                            a.value = ast.copy_location(ast.Subscript(value=a.value, slice=ast.Slice(lower=None, upper=ast.UnaryOp(op=ast.USub(), operand=ast.Constant(value=1)), step=None),
+                                                                      ctx=ast.Load()), a.value)
+                            ast.fix_missing_locations(a)
+                            del blk[i + 1]
+                            self.log.append(f"{fi.fq}: split followed by dropping the last element -> split(...)[:-1]")
+                            return True
+        return False
+
+    # ------------------------------------------------------------------ T16: `while True: x = E; if c(x): break|return r; BODY`  ->  `x = E; while not c(x): BODY; x = E`
+    def rotate_loop(self, fi):
+        def strip_continues(stmts):
+            """`if c: continue` + rest -> `if not c: rest` (recursively); None when a continue/break remains elsewhere"""
+            out = []
+            for i, s in enumerate(stmts):
+                if isinstance(s, ast.If) and not s.orelse and len(s.body) == 1 and isinstance(s.body[0], ast.Continue):
+                    rest = strip_continues(stmts[i + 1:])
+                    if rest is None:
+                        return None
+                    if rest:
+                        out.append(ast.copy_location(ast.If(test=ast.copy_location(ast.UnaryOp(op=ast.Not(), operand=s.test), s.test), body=rest, orelse=[]), s))
+                    return out
+                if any(isinstance(n, (ast.Continue, ast.Break)) for n in ast.walk(s) if not isinstance(n, (ast.For, ast.While)) or n is s) and \
+                        any(isinstance(n, (ast.Continue, ast.Break)) for n in ast.walk(s)):
+                    return None
+                out.append(s)
+            return out
+        for owner in ast.walk(fi.node):
+            for fld in ("body", "orelse"):
+                blk = getattr(owner, fld, None)
+                if not isinstance(blk, list):
+                    continue
+                for i, w in enumerate(blk):
+                    if not (isinstance(w, ast.While) and isinstance(w.test, ast.Constant) and w.test.value is True and not w.orelse and len(w.body) >= 3):
+                        continue
+                    a, g = w.body[0], w.body[1]
+                    if not (isinstance(a, ast.Assign) and len(a.targets) == 1 and isinstance(a.targets[0], ast.Name) and isinstance(g, ast.If) and not g.orelse and
+                            len(g.body) == 1 and isinstance(g.body[0], (ast.Break, ast.Return))):
+                        continue
+                    x = a.targets[0].id
+                    if not any(isinstance(n, ast.Name) and n.id == x for n in ast.walk(g.test)):
+                        continue
+                    rest = strip_continues(w.body[2:])
+                    if rest is None or not rest:
+                        continue
+                    exit_ = g.body[0]
+                    if isinstance(exit_, ast.Return) and i + 1 < len(blk):
+                        continue        # statements after the loop would be skipped by the return
+                    w.test = ast.copy_location(ast.UnaryOp(op=ast.Not(), operand=g.test), g.test)
+                    again = _relocate(_clone(a), w.body[-1])
+                    # names whose reaching definition before the loop is a literal (position = 0) are read as that literal in the first evaluation
+                    lits = {}
+                    for prev in blk[:i]:
+                        for n_ in ast.walk(prev):
+                            if isinstance(n_, ast.Name) and isinstance(n_.ctx, ast.Store):
+                                lits.pop(n_.id, None)
+                        if isinstance(prev, ast.Assign) and len(prev.targets) == 1 and isinstance(prev.targets[0], ast.Name) and isinstance(prev.value, ast.Constant):
+                            lits[prev.targets[0].id] = prev.value
+                    if lits:
+                        a.value = _Subst(lits).visit(a.value)
+                    w.body = rest + [again]
+                    new = [a, w] + ([exit_] if isinstance(exit_, ast.Return) else [])
+                    blk[i:i + 1] = new
+                    for n_ in new:
+                        ast.fix_missing_locations(n_)
+                    self.log.append(f"{fi.fq}: `while True: {x} = ...; if ...: {'return' if isinstance(exit_, ast.Return) else 'break'}` rotated into a pre-tested loop")
+                    return True
+        return False
+
+    # ------------------------------------------------------------------ T17: small canonical forms: (e - 1) + 1 -> e, x.find(y, 0) -> x.find(y), not (a < 3) -> a >= 3
+    def canonical_forms(self, fi):
+        changed = False
+        neg = {ast.Lt: ast.GtE, ast.LtE: ast.Gt, ast.Gt: ast.LtE, ast.GtE: ast.Lt, ast.Eq: ast.NotEq, ast.NotEq: ast.Eq}
+
+        class T(ast.NodeTransformer):
+            def visit_BinOp(self, n):
+                nonlocal changed
+                self.generic_visit(n)
+                if isinstance(n.op, (ast.Add, ast.Sub)) and isinstance(n.right, ast.Constant) and isinstance(n.right.value, int) and not isinstance(n.right.value, bool) and \
+                        isinstance(n.left, ast.BinOp) and isinstance(n.left.op, (ast.Add, ast.Sub)) and isinstance(n.left.right, ast.Constant) and \
+                        isinstance(n.left.right.value, int) and not isinstance(n.left.right.value, bool):
+                    c = (n.left.right.value if isinstance(n.left.op, ast.Add) else -n.left.right.value) + (n.right.value if isinstance(n.op, ast.Add) else -n.right.value)
+                    changed = True
+                    if c == 0:
+                        return n.left.left
+                    return ast.copy_location(ast.BinOp(left=n.left.left, op=ast.Add() if c > 0 else ast.Sub(), right=ast.Constant(value=abs(c))), n)
+                return n
+
+            def visit_Call(self, n):
+                nonlocal changed
+                self.generic_visit(n)
+                if isinstance(n.func, ast.Attribute) and n.func.attr == "find" and len(n.args) == 2 and not n.keywords and isinstance(n.args[1], ast.Constant) and n.args[1].value == 0 \
+                        and not isinstance(n.args[1].value, bool):
+                    n.args = n.args[:1]
+                    changed = True
+                return n
+
+            def visit_UnaryOp(self, n):
+                nonlocal changed
+                self.generic_visit(n)
+                if isinstance(n.op, ast.Not) and isinstance(n.operand, ast.Compare) and len(n.operand.ops) == 1 and type(n.operand.ops[0]) in neg and \
+                        isinstance(n.operand.comparators[0], ast.Constant) and isinstance(n.operand.comparators[0].value, int) and not isinstance(n.operand.comparators[0].value, bool):
+                    changed = True
+                    return ast.copy_location(ast.Compare(left=n.operand.left, ops=[neg[type(n.operand.ops[0])]()], comparators=n.operand.comparators), n)
+                return n
+        T().visit(fi.node)
+        if changed:
+            self.log.append(f"{fi.fq}: canonical forms applied")
+        return changed
+
+    # ------------------------------------------------------------------ T12: `if not C: LONG; return a` + `SHORT; return b`  ->  `if C: SHORT; return b` + `LONG; return a`
+    def flip_negated_arm(self, fi):
+        fn = fi.node
+        if isinstance(fn, ast.Lambda):
+            return False
+        body = fn.body
+        for i, s in enumerate(body):
+            if isinstance(s, ast.If) and not s.orelse and isinstance(s.test, ast.UnaryOp) and isinstance(s.test.op, ast.Not) and s.body and isinstance(s.body[-1], ast.Return) \
+                    and i + 1 < len(body) and isinstance(body[-1], ast.Return) and len(s.body) > len(body) - i - 1:
+                rest = body[i + 1:]
+                long_arm = s.body
+                s.test = s.test.operand
+                s.body = rest
+                fn.body = body[:i + 1] + long_arm
+                self.log.append(f"{fi.fq}: `if not c: <long>; return` + `<short>; return` -> positive test first")
+                return True
+        return False
+
     # ------------------------------------------------------------------ T11: `t = P.attr` (assigned once): t is P.attr until P or P.attr is next assigned
     def attr_snapshot(self, fi):
         fn = fi.node
@@ -460,7 +731,7 @@ class Normaliser:
                 stores[n.id] = stores.get(n.id, 0) + 1
         for i, s in enumerate(fn.body):
             if isinstance(s, ast.Assign) and len(s.targets) == 1 and isinstance(s.targets[0], ast.Name) and isinstance(s.value, ast.Attribute) and \
-                    isinstance(s.value.value, ast.Name) and s.value.value.id in params and s.value.value.id != "self":
+                    isinstance(s.value.value, ast.Name) and s.value.value.id in params:
                 t, p, a = s.targets[0].id, s.value.value.id, s.value.attr
                 if stores.get(t, 0) != 1 or t in params:
                     continue
@@ -582,7 +853,7 @@ def normalise_program(prog, rounds=4):
                 c = False
                 for step in (lambda: nz.inline_expr_calls(m, fi), lambda: nz.inline_stmt_calls(m, fi), lambda: nz.while_true(fi), lambda: nz.aliases(fi),
                              lambda: nz.moving_alias(fi), lambda: nz.continue_to_else(fi), lambda: nz.pure_temps(fi), lambda: nz.rematerialise(fi),
-                             lambda: nz.early_alias(fi), lambda: nz.attr_snapshot(fi)):
+                             lambda: nz.early_alias(fi), lambda: nz.attr_snapshot(fi), lambda: nz.flip_negated_arm(fi), lambda: nz.field_temps(fi), lambda: nz.private_constants(m, fi), lambda: nz.split_drop_last(fi), lambda: nz.rotate_loop(fi), lambda: nz.canonical_forms(fi)):
                     try:
                         c = step() or c
                     except (AttributeError, TypeError, ValueError, KeyError, IndexError, RecursionError) as e:   # an unexpected tree shape: leave the function as it is
